@@ -71,6 +71,8 @@ SHORT_PROGRAMS = [
     "lda #!0\nlda #-1\nlda #!-1\nlda #<$1234\nlda #>$1234",
     "lda #! -1\r\n.if !/* not */-foo { nop }\r\nfoo: lda #! /* a */ - /* b */ foo\r\n",
     ".byte $ ff, % 101, $/* hi */12\r\nlda # $ 10\r\n",
+    "asl // x\n{ lsr }\nrol /* c */\nror  \nasl\t// y\nlsr /* a */ // b\n{ rol /* c */ }\n",
+    ".trace ()\n.trace ( /* c */ )\n.trace (a)\n.trace ( a , x )\n.trace\n",
     "beq *\nbne * + 2\njmp *",
     ".file \"nonexistent.bin\"",
     "lbl:\nlbl2: nop\n  lbl3:   nop",
